@@ -1226,6 +1226,7 @@ pub fn mutate(
         }
         let bytes: Option<(Bytes, String)> = match tag.kind {
             _ if spec.op == 2000 => overflow_attack(data, &mut rng),
+            _ if spec.op == 2001 => cbmt_attack(data, &mut rng),
             Kind::SendLastStateProof => packed::LightClientMessageReader::from_compatible_slice(data)
                 .ok()
                 .and_then(|m| match m.to_enum() {
@@ -1824,4 +1825,54 @@ pub fn planted_blocks_proof(sim: &Sim, p: usize, req: &packed::GetBlocksProof, v
     let mut t = crafted(Kind::SendBlocksProof, "made-up header with a boundary number 'proven'");
     t.request = None;
     Some((m.as_bytes(), t))
+}
+
+/// The honest transactions proof with the positions of the CBMT proof of one filtered block
+/// replaced by boundary values (everything the client checks before - hashes, headers, MMR
+/// proof - stays true).
+fn cbmt_attack(data: &Bytes, rng: &mut Rng) -> Option<(Bytes, String)> {
+    let m = packed::LightClientMessageReader::from_compatible_slice(data).ok()?;
+    let r = match m.to_enum() {
+        packed::LightClientMessageUnionReader::SendTransactionsProof(r) => r,
+        _ => return None,
+    };
+    let tamper = |fbs: packed::FilteredBlockVec, rng: &mut Rng| -> Option<packed::FilteredBlockVec> {
+        let mut v: Vec<packed::FilteredBlock> = fbs.into_iter().collect();
+        if v.is_empty() {
+            return None;
+        }
+        // prefer a block with several transactions
+        let i = (0..v.len()).max_by_key(|i| v[*i].transactions().len()).unwrap();
+        let fb = v[i].clone();
+        let n = fb.transactions().len();
+        let mut idx: Vec<u32> = fb.proof().indices().into_iter().map(|x| x.unpack()).collect();
+        match rng.below(5) {
+            0 => idx = vec![u32::MAX; n],
+            1 => {
+                if let Some(x) = idx.first_mut() {
+                    *x = u32::MAX;
+                }
+            }
+            2 => {
+                if let Some(x) = idx.last_mut() {
+                    *x = u32::MAX - 1;
+                }
+            }
+            3 => idx = (0..n as u32).map(|k| u32::MAX - k).collect(),
+            _ => idx = vec![0; n],
+        }
+        let proof = fb.proof().as_builder().indices(idx.pack()).build();
+        v[i] = fb.as_builder().proof(proof).build();
+        Some(packed::FilteredBlockVec::new_builder().set(v).build())
+    };
+    let out = if r.count_extra_fields() >= 2 {
+        let e = packed::SendTransactionsProofV1Reader::from_compatible_slice(r.as_slice()).ok()?.to_entity();
+        let fbs = tamper(e.filtered_blocks(), rng)?;
+        lc_msg(e.as_builder().filtered_blocks(fbs).build())
+    } else {
+        let e = r.to_entity();
+        let fbs = tamper(e.filtered_blocks(), rng)?;
+        lc_msg(e.as_builder().filtered_blocks(fbs).build())
+    };
+    Some((out.as_bytes(), "positions of a transactions merkle proof at the boundary".to_string()))
 }
